@@ -13,10 +13,13 @@ namespace Wp.C06
 open Wp Wp.Cascade Wp.Computed Wp.Style Wp.Gen.Units Wp.CssSpec
 
 /-- `INHERITED` is the set of inherited properties of CSS, property by property over every key of
-`INITIAL_VALUES`, up to the recorded deviation (`Witness.C06.image_orientation_not_inherited`). -/
-theorem inherited_is_css :
-    ∀ k ∈ initialKeys, k ∉ knownInheritanceDeviations → isInherited k = specInherits k := by
+`INITIAL_VALUES` — full strength since commit 8f3706e added `image_orientation` (before, the theorem
+excluded that one property and `Witness.C06.image_orientation_not_inherited` refuted the rest). -/
+theorem inherited_is_css : ∀ k ∈ initialKeys, isInherited k = specInherits k := by
   decide +kernel
+
+/-- The two tables are the same set. -/
+theorem css_inherited_subset : ∀ k ∈ cssInherited, isInherited k = true := by decide +kernel
 
 /-- The code never inherits a property that CSS does not inherit … -/
 theorem inherited_subset_css : ∀ k ∈ inherited, specInherits k = true := by decide +kernel
@@ -38,32 +41,26 @@ theorem css_non_inherited_takes_initial (e : Elem) (parent : ParentGet) (key : S
     (hc : lookup key e.cascaded = none) (hcu : isCustom key = false)
     (htd : isTextDecoration key = false) (hpage : key ≠ "page") :
     specified e parent key = initialResult key := by
-  have hi : isInherited key = false := by
-    by_cases hdev : key ∈ knownInheritanceDeviations
-    · -- the deviation is a property the code does not inherit
-      have : key = "image_orientation" := by simpa [knownInheritanceDeviations] using hdev
-      subst this; decide
-    · rw [inherited_is_css key hk hdev]; exact hs
+  have hi : isInherited key = false := by rw [inherited_is_css key hk]; exact hs
   exact not_cascaded_initial e parent key hc hi hcu (Or.inl htd) hpage
 
-/-- … and for a property that CSS inherits (outside the recorded deviation): the parent's computed
-value, as it is. -/
+/-- … and for a property that CSS inherits: the parent's computed value, as it is. -/
 theorem css_inherited_takes_parent (e : Elem) (get : String → Except CErr Val) (key : String)
-    (hk : key ∈ initialKeys) (hs : specInherits key = true) (hdev : key ∉ knownInheritanceDeviations)
+    (hk : key ∈ initialKeys) (hs : specInherits key = true)
     (hc : lookup key e.cascaded = none) :
     specified e (some get) key = (get key).map (fun v => (v, true)) := by
-  have hi : isInherited key = true := by rw [inherited_is_css key hk hdev]; exact hs
+  have hi : isInherited key = true := by rw [inherited_is_css key hk]; exact hs
   exact every_inherited_property_inherits e get key (by simpa [isInherited] using hi) hc
 
 /-- The same for an element without any declaration (`AnonymousStyle`: anonymous boxes, elements
 no rule matches). -/
 theorem css_anonymous_follows_spec (get : String → Except CErr Val) (key : String)
-    (hk : key ∈ initialKeys) (hdev : key ∉ knownInheritanceDeviations)
+    (hk : key ∈ initialKeys)
     (hb : ["border_top_width", "border_bottom_width", "border_left_width", "border_right_width",
            "outline_width"].contains key = false)
     (hcu : isCustom key = false) (hp : plainKey key) :
     anonymousKey get key = if specInherits key then get key else initialValue key := by
-  rw [← inherited_is_css key hk hdev]
+  rw [← inherited_is_css key hk]
   by_cases hi : isInherited key = true
   · simp [hi, anonymous_inherits get key (Or.inl hi) hb]
   · have hi' : isInherited key = false := by simpa using hi
@@ -75,7 +72,8 @@ generated registry follows the decorators in `computed_values.py`; dropping or m
 that property.  The document oracle then reports the relative unit that survives. -/
 theorem computer_registry_pinned :
     computerFunctions =
-  [("background_image", "background_image"), ("object_position", "compute_position"), ("background_position", "compute_position"),
+  [("background_image", "background_image"), ("list_style_image", "image"), ("mask_border_source", "image"),
+   ("border_image_source", "image"), ("object_position", "compute_position"), ("background_position", "compute_position"),
    ("transform_origin", "length_or_percentage_tuple"), ("clip", "length_tuple"), ("size", "length_tuple"),
    ("border_spacing", "length_tuple"), ("break_before", "break_before_after"), ("break_after", "break_before_after"),
    ("text_decoration_thickness", "length"), ("text_underline_offset", "length"), ("flex_basis", "length"),
@@ -116,7 +114,7 @@ theorem length_properties_registered :
 
 -- non-vacuity: `text-overflow` (not inherited) and `text-indent` (inherited) below a parent
 example : specInherits "text_overflow" = false ∧ specInherits "text_indent" = true ∧
-    "text_overflow" ∈ initialKeys ∧ "text_overflow" ∉ knownInheritanceDeviations := by decide +kernel
+    "text_overflow" ∈ initialKeys ∧ specInherits "image_orientation" = true := by decide +kernel
 example :
     let parent : Elem := ⟨[("text_overflow", .val (.kw "ellipsis")), ("text_indent", .val (.dim 4 "px"))], none, [], none⟩
     let child : Elem := ⟨[("width", .val (.kw "auto"))], none, [], none⟩
